@@ -3,6 +3,7 @@
 SPECIFICATION Spec
 CONSTANTS MaxSeg = 2
           MaxCrashes = 1
+          MaxDeny = {99, 1}
           CaseCrashes = 1
 INVARIANTS C28_MetaImpliesAllFiles C28_MarkKeptUntilLast DoneMeansDone
 PROPERTIES Terminates AlgoStepsHold
